@@ -384,6 +384,19 @@ func gen(o hreg.Opts, w *bufio.Writer) error {
 			tt = append(tt, strconv.FormatUint(t, 10))
 		}
 		line("chain", "%s %s", s, strings.Join(tt, " "))
+		if s.e[0] == 0 || i%4 == 0 {
+			// the same walk from a genesis in the fork of epoch 0 (identical to the phase0 genesis if altair > 0)
+			st.Add("chain-genesis-fork", strconv.Itoa(func() int {
+				k := 0
+				for _, e := range s.e {
+					if e == 0 {
+						k++
+					}
+				}
+				return k
+			}()))
+			line("chaing", "%s %s", s, strings.Join(tt, " "))
+		}
 	}
 	// --- envelope round trips
 	k := o.Pick(60, 1200)
@@ -648,13 +661,60 @@ func stateKind(s common.BeaconState) string {
 	return "unknown"
 }
 
-func runChain(s sched, targets []uint64) string {
+// upgradeAtGenesis turns the phase0 genesis into a genesis of the fork active at epoch 0, the way the
+// consensus specification's later-fork test genesis does: the real UpgradeToX functions at slot 0, then the
+// fork record (version, version, 0).
+func upgradeAtGenesis(spec *common.Spec, s sched, st common.BeaconState, epc *common.EpochsContext) (common.BeaconState, error) {
+	cur := st
+	var err error
+	if s.e[0] == 0 {
+		var post *altair.BeaconStateView
+		if post, err = altair.UpgradeToAltair(spec, epc, cur.(*phase0.BeaconStateView)); err != nil {
+			return nil, err
+		}
+		if err = epc.LoadSyncCommittees(post); err != nil {
+			return nil, err
+		}
+		cur = post
+	}
+	if s.e[1] == 0 {
+		if cur, err = bellatrix.UpgradeToBellatrix(spec, epc, cur.(*altair.BeaconStateView)); err != nil {
+			return nil, err
+		}
+	}
+	if s.e[2] == 0 {
+		if cur, err = capella.UpgradeToCapella(spec, epc, cur.(*bellatrix.BeaconStateView)); err != nil {
+			return nil, err
+		}
+	}
+	if s.e[3] == 0 {
+		if cur, err = deneb.UpgradeToDeneb(spec, epc, cur.(*capella.BeaconStateView)); err != nil {
+			return nil, err
+		}
+	}
+	v := spec.ForkVersion(0)
+	if err := cur.SetFork(common.Fork{PreviousVersion: v, CurrentVersion: v, Epoch: 0}); err != nil {
+		return nil, err
+	}
+	return cur, nil
+}
+
+func runChain(s sched, targets []uint64, atFork bool) string {
 	spec := s.apply(configs.Minimal)
 	state, epc, err := kickstart(spec, 32)
 	if err != nil {
 		return "err"
 	}
-	up := &beacon.StandardUpgradeableBeaconState{BeaconState: state}
+	var st0 common.BeaconState = state
+	if atFork {
+		if s.e[4] == 0 {
+			return "bad-op" // an Electra genesis cannot be made (no upgrade)
+		}
+		if st0, err = upgradeAtGenesis(spec, s, state, epc); err != nil {
+			return "err"
+		}
+	}
+	up := &beacon.StandardUpgradeableBeaconState{BeaconState: st0}
 	var out []string
 	for _, t := range targets {
 		if err := common.ProcessSlots(context.Background(), spec, epc, up, common.Slot(t)); err != nil {
@@ -954,7 +1014,7 @@ func exec(o hreg.Opts, sc *bufio.Scanner, w *bufio.Writer) error {
 					return "err"
 				}
 				return "ok " + strings.TrimPrefix(strings.Split(fmt.Sprintf("%T", alloc()), ".")[0], "*")
-			case f[0] == "chain" && len(f) >= 3:
+			case (f[0] == "chain" || f[0] == "chaing") && len(f) >= 3:
 				s, ok := parseSched(f[1])
 				if !ok || !s.monotone() {
 					return "bad-op"
@@ -967,7 +1027,7 @@ func exec(o hreg.Opts, sc *bufio.Scanner, w *bufio.Writer) error {
 					}
 					ts = append(ts, t)
 				}
-				return runChain(s, ts)
+				return runChain(s, ts, f[0] == "chaing")
 			case f[0] == "env" && len(f) == 3:
 				seed, err := strconv.ParseInt(f[2], 10, 64)
 				if err != nil {
